@@ -80,14 +80,17 @@ var (
 	tinyUints  = []uint64{0, 1, 2, 3}
 	tinyFloats = []float64{0, 1, 0.5, 2, -1}
 	tinyStrs   = []string{"", "a", "b", "A", "ab", "Ab", "aB", "B"}
-	caseStrs   = []string{"ß", "ı", "İ", "ǅ", "ς", "ſ", "K", "Σ", "straße", "ǆ", "é", "É", "ÿ", "Ÿ", "ⅰ", "Ⅰ", "aßc", "İi"}
-	bigInts    = []int64{math.MaxInt64, math.MinInt64, 1 << 53, 1<<53 + 1, 1<<53 - 1, -(1 << 53) - 1, math.MaxInt64 - 1, math.MinInt64 + 1, 1 << 62, 1577836800123456789}
-	bigUints   = []uint64{math.MaxUint64, math.MaxUint64 - 1, 1 << 53, 1<<53 + 1, 1 << 63, 1<<63 + 1, math.MaxInt64}
-	bigFloats  = []float64{math.MaxFloat64, -math.MaxFloat64, math.SmallestNonzeroFloat64, 1 << 53, 1<<53 + 2, math.Copysign(0, -1), 1e21, 1e-7, 0.1, 1.0 / 3}
-	baseTime   = time.Date(2021, 3, 4, 5, 6, 7, 123456789, time.UTC)
-	zones      = []*time.Location{time.UTC, time.FixedZone("", 2*3600), time.FixedZone("", -(5*3600 + 1800))}
-	minTime    = time.Date(1760, 1, 1, 0, 0, 0, 0, time.UTC)
-	maxTime    = time.Date(2261, 1, 1, 0, 0, 0, 0, time.UTC)
+	caseStrs   = []string{"ß", "ı", "İ", "ǅ", "ς", "ſ", "K", "Σ", "straße", "ǆ", "é", "É", "ÿ", "Ÿ", "ⅰ", "Ⅰ", "aßc", "İi",
+		// long ones (implementations may treat long strings differently, e.g. memoise conversions)
+		"The Quick Brown Fox Jumps Over The Lazy Dog 0123456789", "the quick brown fox jumps over the lazy dog 0123456789",
+		"Η Γρήγορη Καφέ Αλεπού Πηδά Πάνω Από Τον Τεμπέλη Σκύλο"}
+	bigInts   = []int64{math.MaxInt64, math.MinInt64, 1 << 53, 1<<53 + 1, 1<<53 - 1, -(1 << 53) - 1, math.MaxInt64 - 1, math.MinInt64 + 1, 1 << 62, 1577836800123456789}
+	bigUints  = []uint64{math.MaxUint64, math.MaxUint64 - 1, 1 << 53, 1<<53 + 1, 1 << 63, 1<<63 + 1, math.MaxInt64}
+	bigFloats = []float64{math.MaxFloat64, -math.MaxFloat64, math.SmallestNonzeroFloat64, 1 << 53, 1<<53 + 2, math.Copysign(0, -1), 1e21, 1e-7, 0.1, 1.0 / 3}
+	baseTime  = time.Date(2021, 3, 4, 5, 6, 7, 123456789, time.UTC)
+	zones     = []*time.Location{time.UTC, time.FixedZone("", 2*3600), time.FixedZone("", -(5*3600 + 1800))}
+	minTime   = time.Date(1760, 1, 1, 0, 0, 0, 0, time.UTC)
+	maxTime   = time.Date(2261, 1, 1, 0, 0, 0, 0, time.UTC)
 )
 
 // rapid's integer and SampledFrom generators are deliberately biased towards
@@ -500,6 +503,11 @@ func (g *G) Config() Config {
 	if g.pct("ext") < 30 {
 		c.Ext = rapid.SampledFrom([]string{".obj", ".j", ".data.v1", ".x1"}).Draw(g.t, "ext")
 	}
+	if c.Compress && g.pct("gzext") < 12 {
+		// an extension that itself ends in .gz is fine as long as compression is on
+		// (the pinned release then writes <uuid>.json.gz.gz)
+		c.Ext = ".json.gz"
+	}
 	cands := castable
 	if len(p.ConsPaths) > 0 {
 		cands = nil
@@ -731,7 +739,7 @@ func (g *G) Op() Op {
 		}
 		op.Aux = map[string]interface{}{
 			"path": pickU(g, []string{"F64", "F32", "In.F", "Pt.F"}, "badpath"),
-			"val":  pickU(g, []string{"nan", "inf", "-inf"}, "badval"),
+			"val":  pickU(g, []string{"nan", "inf", "-inf", "nan", "badtime", "chan", "func"}, "badval"),
 		}
 	case "coldUpdate":
 		op.Ref = g.uni(64, "ref")
@@ -743,6 +751,13 @@ func (g *G) Op() Op {
 		q.Limit, q.Reverse = nil, false
 		q.Consumer = pickU(g, []string{"collect", "assign"}, "snapconsumer")
 		op.Q = q
+		op.Aux = map[string]interface{}{}
+		if g.pct("derive") < 45 {
+			op.Aux["derive"] = g.Leaf(pickU(g, []string{"or", "or", "and"}, "dconn"))
+		}
+		if g.pct("derive2") < 45 {
+			op.Aux["derive2"] = g.Leaf(pickU(g, []string{"or", "and", "and"}, "dconn2"))
+		}
 		n := 1 + g.uni(6, "nsub")
 		burst := g.pct("burst") < 20 // many inserts: exceed the slice capacity
 		for i := 0; i < n; i++ {
